@@ -607,7 +607,9 @@ func (e *Env) evalCall(n *ast.CallExpr) (Val, bool) {
 				return a, false
 			}
 			x.pure++
+			x.lenView = e.view()
 			t := x.lenOf(e.st, a, a.Typ)
+			x.lenView = nil
 			x.pure--
 			return scalar(t, types.Typ[types.Int]), true
 		case "cap":
